@@ -297,10 +297,67 @@ Record c08_obs := C08Obs {
   ob_failing : option (option (phase * nat));  (* None: the location could not be read from the report *)
   ob_sandbox : bool;
   ob_values : list observation }.
+(** ** Where the references of a text are (symbol_syntax.split; C09 proves this algorithm equal to the
+    leftmost decomposition of the text into constants and [@[NAME]@] references, NAME a non-empty
+    identifier - [C09_split_correct]).  Mirrored here for ASCII so that the fragments the harness hands to
+    the model are checked against the SOURCE TEXT of every string value: a stray "@[", "]@", "@[bad-name]@"
+    is constant text and does not hide the reference that follows it. *)
+Definition is_ident_char (c : N) : bool :=
+  ((48 <=? c) && (c <=? 57) || (65 <=? c) && (c <=? 90) || (97 <=? c) && (c <=? 122) || (c =? 95))%N.
+Fixpoint take_ident (s : text) : text :=
+  match s with c :: s' => if is_ident_char c then c :: take_ident s' else [] | [] => [] end.
+Fixpoint find_begin (s : text) : option nat :=
+  match s with
+  | a :: ((b :: _) as s') =>
+      if (a =? 64)%N && (b =? 91)%N then Some 0
+      else match find_begin s' with Some k => Some (S k) | None => None end
+  | _ => None
+  end.
+Definition starts_with_end (s : text) : bool :=
+  match s with a :: b :: _ => (a =? 93)%N && (b =? 64)%N | _ => false end.
+(** the first reference of [s]: (text before it, name, text after it) *)
+Fixpoint first_reference (fuel : nat) (before : text) (s : text) : option (text * text * text) :=
+  match fuel with
+  | O => None
+  | S fuel' =>
+      match find_begin s with
+      | None => None
+      | Some k =>
+          let after_begin := skipn (k + 2) s in
+          let nm := take_ident after_begin in
+          let after_name := skipn (length nm) after_begin in
+          if match nm with [] => false | _ => true end && starts_with_end after_name
+          then Some (before ++ firstn k s, nm, skipn 2 after_name)
+          else first_reference fuel' (before ++ firstn (k + 2 + length nm) s) after_name
+      end
+  end.
+Fixpoint split_text (fuel : nat) (s : text) : list (text + text) :=
+  match fuel with
+  | O => []
+  | S fuel' =>
+      match s with
+      | [] => []
+      | _ => match first_reference (S (length s)) [] s with
+             | None => [inl s]
+             | Some (pre, nm, rest) =>
+                 (match pre with [] => [] | _ => [inl pre] end) ++ inr nm :: split_text fuel' rest
+             end
+      end
+  end.
+Definition split_ok (x : text * list (text + text)) : bool :=
+  list_eqb (fun a b => match a, b with
+                       | inl u, inl v | inr u, inr v => text_eqb u v
+                       | _, _ => false
+                       end)
+           (split_text (S (length (fst x))) (fst x)) (snd x).
+
 Record c08_case := C08Case {
   cc_roots : list text;          (* directories: cwd, home, act-home, act, tmp, result (in [rel_code] order) *)
   cc_builtins : table;
   cc_layout : layout;            (* the sections in file order *)
+  cc_splits : list (text * list (text + text));
+                                 (* every string value of the file: its text, and the constants (inl) and
+                                    reference names (inr) the harness built the model term from *)
   cc_obs : c08_obs }.
 
 Definition roots_of (l : list text) (r : rel) : text := nth (rel_code r) l [SLASH].
@@ -394,7 +451,7 @@ Definition check_case (c : c08_case) : bool * bool :=
   let roots := roots_of (cc_roots c) in
   let tc := assemble (cc_layout c) in
   let o := cc_obs c in
-  ( wf_tcase tc && builtins_ok (cc_builtins c) && canon_ok tc &&
+  ( wf_tcase tc && builtins_ok (cc_builtins c) && canon_ok tc && forallb split_ok (cc_splits c) &&
     (outcome_matches (sym_execute roots (cc_builtins c) tc) o ||
      outcome_matches (sym_execute_gen true roots (cc_builtins c) tc) o),
     P_C08 roots (cc_builtins c) (canon_tcase tc) o ).
